@@ -9,7 +9,7 @@ TRUSTED_COMMON = [
     'op table: assumed contracts of the torch/numpy/opt_einsum functions called by the code (ttvc/tensors.py, ttvc/optable.py), validated against real torch by the differential harness only',
     'Python semantics as encoded by ttvc/interp.py (ints mathematical, reference semantics for lists/objects, name mangling, properties)',
     'floating point treated as exact real (complex: abstract commutative field with involution conj)',
-    'z3 4.x/5.x (SMT back end)',
+    'z3 5.1 (SMT back end); cvc5 1.0.3 only for queries z3 leaves unknown (a cvc5 counter-model is believed only when z3 or the replay on the real code confirms it)',
 ]
 
 
